@@ -1,7 +1,7 @@
 """C20 - a create option means the same via flag, configuration file or keyword."""
 import ast
 
-from tfsa.flow import Flow, walk_terms
+from tfsa.flow import Flow, walk_terms, travels_in_container
 from tfsa.loader import own_nodes, AnalysisError
 from tfsa.report import norm
 from tfsa.resolve import const_str
@@ -318,6 +318,11 @@ def run(ctx):
             problems.append("option(s) %s leak into field %r" % (sorted(used_opts - want), k))
         if want - used_opts:
             problems.append("field %r does not depend on its own option %s" % (k, sorted(want)))
+        if problems and travels_in_container(flow.term(n.value, F), lambda y: y[0] == "param" and y[1] == init.qual and y[2] in option_params):
+            # several option values travel side by side through one container (a table, a tuple that is unpacked through a
+            # starred element ...): which of them reaches this field is not separated by the origin terms
+            ctx.undecided("C20.3", F, "field %r: the option values travel through a container together and could not be told apart (%s)" % (k, "; ".join(problems)), n)
+            continue
         ctx.decide("C20.3", F, not problems, "field %r is fed by keyword %s only" % (k, sorted(FIELD_PARAMS[k])),
                    "field %r: %s" % (k, "; ".join(problems)), n)
     for k in FIELD_PARAMS:
@@ -388,6 +393,21 @@ def recovery(ctx, init, rows):
                     found = True
                     # the arm must be reachable only when no content path was given
                     ctx.holds("C20.4", F, "list option %r: a trailing existing path is taken as the content path and removed from the list" % dest, n.test)
+        if not found:
+            # an arm that this rule cannot read: some function that receives the option tests the existence of the last
+            # element of a list it does not name directly (a table of the list options walked in a loop)
+            generic = None
+            for F, ren in scopes:
+                if F is not init and dest not in ren.values():
+                    continue
+                for a in own_nodes(F.node):
+                    if isinstance(a, ast.Call) and C.is_ext_call(ctx, a, F, ("os.path.exists", "os.path.isfile", "os.path.isdir")) and a.args \
+                            and isinstance(a.args[0], ast.Subscript) and norm(a.args[0].slice) == "-1" and norm(a.args[0].value) != (dest if F is init else ""):
+                        generic = (F, a)
+            if generic is not None:
+                ctx.undecided("C20.4", generic[0], "list option %r: the recovery of a swallowed content path is written generically (`%s`); that it covers this option is not decided" % (dest, norm(generic[1])),
+                              "recovery arm for " + dest)
+                continue
         if not found:
             ctx.violated("C20.4", init, "list-valued option %r has no recovery arm: `create --%s url <content>` swallows the content path" % (dest, dest.replace("_", "-")),
                          "recovery arm for " + dest)
@@ -472,7 +492,8 @@ def post_recovery_values(ctx, init, rows, flow):
         stores = [n for n in own_nodes(init.node) if isinstance(n, ast.Assign) and len(n.targets) == 1 and isinstance(n.targets[0], ast.Subscript) and const_str(n.targets[0].slice) == key]
         for st in stores:
             t = flow.term(st.value, init)
-            trimmed = any(x[0] == "sub" and any(i[0] == "op" and i[1] == "slice" for i in x[2]) and any(b[0] == "param" and b[2] == dest for b in x[1]) for x in walk_terms(t))
+            # some alternative of the stored value is a slice of (something that holds) the option: the list after the recovery
+            trimmed = any(x[0] == "sub" and any(i[0] == "op" and i[1] == "slice" for i in x[2]) and any(b[0] == "param" and b[2] == dest for b in walk_terms(x[1])) for x in walk_terms(t))
             ctx.decide("C20.4", init, trimmed, "field %r is stored from the list as it stands after the recovery of a swallowed content path" % key,
                        "field %r is stored from a copy of %r taken BEFORE the recovery arm removes a swallowed content path: `create --%s url <content>` leaves the local path in the list" % (
                            key, dest, dest.replace("_", "-").replace("url-list", "web-seed").replace("httpseeds", "http-seed")), st)
